@@ -128,6 +128,29 @@ func genRegistry(w *World) string {
 		sb.WriteString("\t},\n")
 	}
 	sb.WriteString("}\n\n")
+	// public registration functions of the discriminator tables (lock probes)
+	sb.WriteString("var registrars = map[string]map[string]any{\n")
+	for i, m := range modules {
+		p := w.pkgs[m]
+		fmt.Fprintf(&sb, "\t%q: {\n", m)
+		var names []string
+		for n := range p.Members {
+			names = append(names, n)
+		}
+		sort.Strings(names)
+		for _, n := range names {
+			fn := p.Func(n)
+			if fn == nil || !strings.HasPrefix(n, "Registry") || !strings.HasSuffix(n, "Factory") || fn.Signature.Params().Len() != 2 || fn.Signature.Results().Len() != 0 {
+				continue
+			}
+			if _, ok := fn.Signature.Params().At(1).Type().Underlying().(*types.Signature); !ok {
+				continue
+			}
+			fmt.Fprintf(&sb, "\t\t%q: m%d.%s,\n", n, i, n)
+		}
+		sb.WriteString("\t},\n")
+	}
+	sb.WriteString("}\n\n")
 	// primitives
 	sb.WriteString("var prims = map[string]any{\n")
 	cp := w.pkgs["codec"].Pkg
@@ -567,6 +590,14 @@ func judge(j Judge, res []RunResult, runErr error) (confirmed bool, observed any
 			return true, map[string]any{"panic": *r.Panic}
 		}
 		return !reflect.DeepEqual(canon(r.Ret), canon(j.ExpectRet)) || (j.Note == "pure" && r.Note != ""), map[string]any{"ret": r.Ret, "note": r.Note}
+	case "hang":
+		// the probe step reports that a public registration function did not return: a lock was leaked
+		for i := range res {
+			if res[i].Note == "hang" {
+				return true, map[string]any{"step": i, "note": "a Registry...Factory call blocked for 2 s: a lock of the table is still held"}
+			}
+		}
+		return false, nil
 	case "anomaly":
 		if m, ok := r.Ret.(map[string]any); ok {
 			for _, k := range []string{"anomalies", "mismatches"} {
